@@ -1,6 +1,7 @@
 #ifndef HEX_ASM_HPP
 #define HEX_ASM_HPP
 
+#include <sys/stat.h>
 #include <cctype>
 #include <cstdio>
 #include <cstdlib>
@@ -973,6 +974,9 @@ public:
   /// Emit the binary.
   void emitBin(std::string outputFilename) {
     std::fstream outputFile(outputFilename, std::ios::out | std::ios::binary);
+    if (!outputFile.is_open()) {
+      throw std::runtime_error("could not open output file " + outputFilename);
+    }
     // The first four bytes are the remaining binary size.
     uint32_t programSizeWords = programSizeBytes >> 2;
     outputFile.write(reinterpret_cast<const char*>(&programSizeWords), sizeof(uint32_t));
@@ -981,6 +985,14 @@ public:
     emitDebugInfo(outputFile);
     // Done.
     outputFile.close();
+    if (outputFile.fail()) {
+      // Do not leave a truncated binary behind.
+      struct stat info;
+      if (stat(outputFilename.c_str(), &info) == 0 && S_ISREG(info.st_mode)) {
+        std::remove(outputFilename.c_str());
+      }
+      throw std::runtime_error("could not write output file " + outputFilename);
+    }
   }
 };
 
